@@ -1,6 +1,9 @@
 import Tea.Proofs.InlineQ
 import Tea.Proofs.InlineHistory
 import Tea.Proofs.InlineClear
+import Tea.Proofs.AltRoundtrip
+import Tea.Proofs.AltQueue
+import Tea.Props.C06
 /-
 C14 — Printed lines appear once, in order, above the view.
 
@@ -39,6 +42,13 @@ Vocabulary (see also `Tea/Props/C06.lean`):
   `pendingLines r ops` — the lines of the `printLine` steps after the last printing flush (after
   what was queued at the start, if no flush prints); `printLinesOf ops` — every line of every
   `printLine` step, in order.
+* the alt screen (`Tea/Proofs/EnterAlt.lean`, `Tea/Proofs/AltQueue.lean`): `preAlt r` — the render
+  with which `enterAlt` brings the main screen up to date before it switches: `flush r` when lines
+  are queued, nothing otherwise; `AltQ r` — `r.queued ≠ [] → r.altActive = false ∧ r.lastRender = []`
+  (`J r` and "nothing is queued on the alt screen"); `EntersWithView r ops` — along `ops` from `r`,
+  every `enterAlt` issued on the main screen while lines are queued finds a pending view
+  (`buf ≠ []`); `viewAfterPrint ops` — every `printLine` is directly followed by a `write` or ends
+  the history (the event loop writes the view after every message).
 
 Only property theorems live here; helper lemmas are in `Tea/Proofs`.
 -/
@@ -292,6 +302,159 @@ theorem C14_flush_after_clear (r : RState) (t : Term) (hinv : ClearedInv r t) (s
       unfold viewTop; rw [a10]
     omega
 
+/-! ### printed lines and the alt screen -/
+
+/-- **Print, then EnterAltScreen.**  From the inline invariant with a pending view (`r.buf ≠ []`,
+the event loop writes the view after every message) and any queue: `printLine body` (the lines of
+`body` are queued after the ones already queued, the cache is invalidated: `rp`), then `enterAlt`.
+With `R0 = viewTop r t` the row where the view started, `Q` the rows of the queued lines (those
+queued before, then those of `body`, wrapped at the width) and `V = frameLines rp` the frame of the
+pending view:
+* (a) the queue of the state after `enterAlt` is EMPTY: nothing is carried into the alt screen;
+* (b) what `enterAlt` writes is what `flush` writes in the state after the print — one ordinary
+  render, on the main screen — followed by the four switching operations (DECSET 1049, ED2, HOME,
+  the cursor mode);
+* (c) on the terminal (`t1`): the alt screen is active, blank, its cursor at home, and `AltInv`
+  holds; on the MAIN screen every row above `R0` is untouched, rows `R0 .. R0+|Q|-1` show `Q` —
+  every printed line once, in print order, wrapped, blank padded — and the view is directly below
+  them (the flush part is `C14_flush`);
+* (d) after ANY further `altStable` history on the alt screen and `exitAlt` (`C06_alt_roundtrip`: a
+  visit to the alt screen leaves the main screen as it was): back on the main screen, the same
+  rows still show `Q` and the view below them, rows above `R0` are untouched, nothing is queued,
+  and the inline invariant holds with the view starting at `R0 + |Q|`.
+
+(Before the repair `enterAlt` wrote only the four switching operations and kept the queue: a
+program that printed, switched to the alt screen and ended there lost the lines — see the
+contrast run below.) -/
+theorem C14_print_then_alt (r : RState) (t : Term) (hinv : InlineInv r t) (hbuf : r.buf ≠ [])
+    (body : Bytes) (ops : List ROp) (hs : ∀ o ∈ ops, altStable o = true) :
+    let rp := (step r (.printLine body)).1
+    let R0 := viewTop r t
+    let Q := qrows t.w (r.queued ++ splitLines body)
+    let V := frameLines rp
+    let r1 := (enterAlt rp).1
+    let t1 := applyOps t (enterAlt rp).2
+    let r2 := (run r1 ops).1
+    let t2 := (run r1 ops).2.foldl applyOps t1
+    let r3 := (exitAlt r2).1
+    let t3 := applyOps t2 (exitAlt r2).2
+    let mainShows : Term → Prop := fun t' =>
+      (∀ ρ, ρ < R0 → ∀ c, t'.main.cells ρ c = t.main.cells ρ c) ∧
+      (∀ j l, Q[j]? = some l → t'.main.row t.w (R0 + j) = padLine t.w l) ∧
+      (∀ i l, V[i]? = some l → t'.main.row t.w (R0 + Q.length + i) = padLine t.w (Ansi.visible l))
+    (rp.queued = r.queued ++ splitLines body ∧ rp.queued ≠ [] ∧ rp.lastRender = [] ∧
+      rp.buf = r.buf ∧ Q = qrows t.w r.queued ++ qrows t.w (splitLines body)) ∧
+    r1.queued = [] ∧
+    (enterAlt rp).2 = (flush rp).2 ++ [.decset 1049, .ed2, .home, cursorOp r.cursorHidden] ∧
+    (t1.onAlt = true ∧ AltInv r1 t1 ∧ (∀ ρ c, t1.alt.cells ρ c = 32) ∧
+      t1.alt.cr = t1.alt.top ∧ t1.alt.cc = 0 ∧ t1.alt.pw = false ∧ t1.w = t.w ∧ t1.h = t.h) ∧
+    mainShows t1 ∧
+    (InlineInv r3 t3 ∧ r3.queued = [] ∧ t3.onAlt = false ∧ t3.w = t.w ∧ t3.h = t.h ∧
+      viewTop r3 t3 = R0 + Q.length) ∧
+    mainShows t3 := by
+  intro rp R0 Q V r1 t1 r2 t2 r3 t3 mainShows
+  have hst : rp = ({ r with queued := r.queued ++ splitLines body } : RState).repaint := by
+    show (step r (.printLine body)).1 = _
+    simp [step, hinv.alt]
+  obtain ⟨_, _, p3⟩ := C14_printLine r t body
+  obtain ⟨p4, p5, _, p7, p8⟩ := p3 hinv.alt
+  obtain ⟨p9, p10⟩ := p8 hinv
+  have ha : rp.altActive = false := p9.alt
+  have hch : rp.cursorHidden = r.cursorHidden := by rw [hst]; rfl
+  have hq' : rp.queued ≠ [] := by
+    show (step r (.printLine body)).1.queued ≠ []
+    rw [p4]
+    intro h
+    have := splitLines_length_pos body
+    rw [(List.append_eq_nil_iff.1 h).2] at this
+    simp at this
+  have hpb : rp.buf ≠ [] := by
+    show (step r (.printLine body)).1.buf ≠ []
+    rw [p7]; exact hbuf
+  have hpre : preAlt rp = flush rp := preAlt_q rp hq'
+  have hws : write rp rp.buf = rp := write_self rp hpb
+  -- the flush part: `C14_flush` for the state after the print and its own pending view
+  have c := C14_flush rp t p9 rp.buf (by rw [hws]; show rp.buf ≠ (step r (.printLine body)).1.lastRender
+                                         rw [p5]; exact hpb) _ _ rfl rfl
+  rw [hws] at c
+  obtain ⟨c1, c2, c3, c4, c5, c6, c7, c8, _, _, _, c12, _, _⟩ := c
+  have hvt : viewTop rp t = R0 := p10
+  have hqq : qrows t.w rp.queued = Q := by
+    show qrows t.w (step r (.printLine body)).1.queued = _
+    rw [p4]
+  rw [hvt] at c6 c7 c8
+  rw [hqq] at c7 c8
+  rw [c8] at c12
+  -- the terminal after `enterAlt`: the flush, then the switch
+  have hops : (enterAlt rp).2 = (flush rp).2 ++ switchOps r.cursorHidden := by
+    rw [enterAlt_ops rp ha, hpre, hch]
+  have ht1 : t1 = applyOps (applyOps t (flush rp).2) (switchOps r.cursorHidden) := by
+    show applyOps t (enterAlt rp).2 = _
+    rw [hops, applyOps_append]
+  obtain ⟨s1, s2, s3, s4⟩ := switchOps_term (applyOps t (flush rp).2) r.cursorHidden c1.onAlt
+  obtain ⟨s5, s6, s7⟩ := switchOps_alt_home (applyOps t (flush rp).2) r.cursorHidden c1.onAlt
+  rw [← ht1] at s1 s2 s3 s4 s5 s6 s7
+  obtain ⟨m1, _, _, _, _⟩ := enterAlt_main rp t ha hinv.onAlt
+  rw [hpre] at m1
+  have hshow : ∀ t' : Term, t'.main.cells = (applyOps t (flush rp).2).main.cells → mainShows t' := by
+    intro t' hc
+    refine ⟨?_, ?_, ?_⟩
+    · intro ρ hρ c; rw [hc]; exact c6 ρ hρ c
+    · intro j l hj; rw [row_of_cells hc]; exact c7 j l hj
+    · intro i l hi; rw [row_of_cells hc]; exact c12 i l hi
+  -- the round trip
+  obtain ⟨_, _, d3, d4, d5, _, d7, d8, _, d10, d11⟩ := C06.C06_alt_roundtrip rp t p9 ops hs
+  rw [hpre] at d4 d5 d7 d8
+  refine ⟨⟨p4, hq', p5, p7, ?_⟩, ?_, hops, ⟨s1, ?_, s4, s5, s6, s7, by rw [s2, c4], by rw [s3, c5]⟩,
+    hshow t1 m1, ⟨d3, d4.trans c2, d3.onAlt, d10, d11, ?_⟩, hshow t3 d5⟩
+  · simp [Q, qrows]
+  · show (enterAlt rp).1.queued = []
+    rw [(enterAlt_fields rp ha).2.2.2.2.2.1, hpre]; exact c2
+  · exact enterAlt_inv rp t ha hinv.onAlt p9.width p9.height hinv.wpos hinv.hpos
+  · rw [viewTop_congr d8 d7]; exact c8
+
+/-- **The alt screen never holds queued printed lines.**  `AltQ r`: a queued printed line means
+the renderer is on the main screen with an invalid render cache (`queued ≠ [] → altActive = false
+∧ lastRender = []`); it holds in the initial state and in every state with nothing queued.  It is
+kept along EVERY history of renderer operations `ops` in which an EnterAltScreen issued on the
+main screen while lines are queued finds a pending view (`EntersWithView r ops`, checked step by
+step) — whatever else happens: views, flushes on either screen, resizes, ClearScreen, modes,
+ExitAltScreen, `stop`, `kill`, and `printLine` on either screen (while the alt screen is active a
+`printLine` is dropped, so it queues nothing).  Hence, in every state of such a history (every
+prefix `ops.take k`): `altActive → queued = []`.
+
+The side condition cannot be dropped: with lines queued and NO pending view the render that
+precedes the switch is a no-op (`flush` returns early when `buf` is empty) and the queue is carried
+into the alt screen, as before the repair — see the run `[printLine "P", enterAlt]` below, from the
+initial state.  It holds for every history of the event loop, which writes the model's view after
+every message it handles: `C14_alt_queue_empty_loop`. -/
+theorem C14_alt_queue_empty (r : RState) (h0 : AltQ r) (ops : List ROp)
+    (hv : EntersWithView r ops) (k : Nat) :
+    AltQ (run r (ops.take k)).1 ∧
+    ((run r (ops.take k)).1.altActive = true → (run r (ops.take k)).1.queued = []) := by
+  have h := altQ_run (ops.take k) r h0 (entersWithView_take ops r k hv)
+  exact ⟨h, fun ha => h.alt_empty ha⟩
+
+/-- ... in particular for EVERY history from the initial state (or from any state with nothing
+queued) in which each `printLine` is directly followed by a `write` — the event loop handles the
+print message and then writes the view — or ends the history (`viewAfterPrint`): in every state
+reached, `altActive → queued = []`. -/
+theorem C14_alt_queue_empty_loop (r : RState) (hq : r.queued = []) (ops : List ROp)
+    (hv : viewAfterPrint ops = true) (k : Nat) :
+    (run r (ops.take k)).1.altActive = true → (run r (ops.take k)).1.queued = [] :=
+  (C14_alt_queue_empty r (altQ_of_empty r hq) ops
+    (entersWithView_of_viewAfterPrint ops r (altQ_of_empty r hq)
+      (fun _ => Or.inl (fun h => absurd hq h)) hv) k).2
+
+/-- the side condition of `C14_alt_queue_empty` is needed: from the initial state, a print and
+then EnterAltScreen with no view written yet — the alt screen is active and "P" is still queued -/
+example :
+    let r := (run {} [.printLine [80], .enterAlt]).1
+    r.altActive = true ∧ r.queued = [[80]] ∧ ¬ EntersWithView {} [.printLine [80], .enterAlt] := by
+  refine ⟨by decide, by decide, ?_⟩
+  intro h
+  exact h.2.1 rfl rfl (by decide) rfl
+
 /-! ### concrete run (non-vacuity): W = 10, H = 5, cursor on window row 1, old output on row 0 -/
 
 def ri : RState := { width := 10, height := 5 }
@@ -424,6 +587,104 @@ example :
     (flush (write (runOn rh th (histOps ++ [.clearScreen])).1 [118])).2 =
       [.cuu 2, .text [120], .el0, .cr, .lf, .cr, .ed0, .text [118], .el0, .cub 10] ∧
     (∀ o ∈ histOps ++ [.clearScreen, .write [118], .flush], inlineStableC o = true) := by
+  decide
+
+/-! ### print, EnterAltScreen, quit on the alt screen (W = 10, H = 5): the repaired `enterAlt` and,
+for contrast, the old one -/
+
+/-- the first `k` window rows of the alt screen -/
+def altRows (t : Term) (k : Nat) : List Bytes :=
+  (List.range k).map (fun i => t.alt.row t.w (t.alt.top + i))
+
+/-- `enterAltScreen()` BEFORE the repair: switch at once, whatever is queued -/
+def enterAltOld (r : RState) : RState × List TermOp :=
+  if r.altActive then (r, [])
+  else (({ r with altActive := true, altLinesRendered := 0 } : RState).repaint,
+    [.decset 1049, .ed2, .home, cursorOp r.cursorHidden])
+
+/-- with nothing queued the two definitions agree -/
+example (r : RState) (hq : r.queued = []) : enterAlt r = enterAltOld r := by
+  cases ha : r.altActive with
+  | true => simp [enterAlt, enterAltOld, ha]
+  | false => rw [enterAlt_noq r ha hq]; simp [enterAltOld, ha]
+
+/-- `runOn` with the old `enterAlt` -/
+def runOnOld (r : RState) (t : Term) : List ROp → RState × Term
+  | [] => (r, t)
+  | .enterAlt :: os => runOnOld (enterAltOld r).1 (applyOps t (enterAltOld r).2) os
+  | o :: os => runOnOld (step r o).1 (applyOps t (step r o).2) os
+
+/-- the view "aaa\nbbb" is rendered (tape rows 1, 2); `Println("P")` — the event loop handles the
+message and writes the (unchanged) view —; EnterAltScreen; the program quits there: `stop` on the
+alt screen, then ExitAltScreen (the order of `shutdown`) -/
+def printAltOps : List ROp :=
+  [.write [97,97,97,10,98,98,98], .flush, .printLine [80], .write [97,97,97,10,98,98,98],
+   .enterAlt, .stop, .exitAlt]
+
+example : viewAfterPrint printAltOps = true := by decide
+
+/-- the hypotheses of `C14_print_then_alt` hold at the start of this run (a pending view, the
+inline invariant) -/
+example : InlineInv (write ri [97,97,97,10,98,98,98]) ti ∧ (write ri [97,97,97,10,98,98,98]).buf ≠ [] :=
+  ⟨InlineInv.write ⟨rfl, rfl, rfl, rfl, by decide, by decide, ⟨rfl, rfl⟩, by decide,
+    fun ρ h _ c _ => by
+      have : ρ ≠ 0 := by have : ti.main.cr = 1 := rfl; omega
+      simp [ti, this],
+    fun _ h => by simp [ri] at h, fun h => by simp [ri] at h⟩ _, by decide⟩
+
+set_option maxRecDepth 100000 in
+/-- the repaired `enterAlt` first renders on the main screen — CUU 1, "P", the view — and then
+switches; at the end the main screen shows "P" above "aaa", "bbb" (old output on row 0 intact),
+the alt screen was never painted, nothing is queued -/
+example :
+    let q := runOn ri ti (printAltOps.take 4)
+    let p := runOn ri ti printAltOps
+    (enterAlt q.1).2 =
+      [.cuu 1, .text [80], .el0, .cr, .lf, .cr, .text [97,97,97], .el0, .cr, .lf,
+       .text [98,98,98], .el0, .cub 10, .decset 1049, .ed2, .home, .decset 25] ∧
+    (enterAlt q.1).2 = (flush q.1).2 ++ [.decset 1049, .ed2, .home, .decset 25] ∧
+    (enterAlt q.1).1.queued = [] ∧
+    mainRows p.2 0 5 =
+      [List.replicate 10 120, [80,32,32,32,32,32,32,32,32,32], [97,97,97,32,32,32,32,32,32,32],
+       [98,98,98,32,32,32,32,32,32,32], List.replicate 10 32] ∧
+    altRows p.2 5 = List.replicate 5 (List.replicate 10 32) ∧
+    p.1.queued = [] ∧ p.2.onAlt = false ∧ p.2.main.top = 0 ∧ p.2.main.cr = 3 ∧ p.2.main.cc = 0 := by
+  decide
+
+set_option maxRecDepth 100000 in
+/-- the OLD `enterAlt` writes only the four switching operations and carries "P" into the alt
+screen, where no flush prints it: at the end "P" is NOWHERE — not on the main screen ("aaa", "bbb"
+as before the print), not on the alt screen (`stop` painted the view there and erased its cursor
+line) — and it is still in the queue of a renderer that has stopped -/
+example :
+    let q := runOnOld ri ti (printAltOps.take 4)
+    let p := runOnOld ri ti printAltOps
+    (enterAltOld q.1).2 = [.decset 1049, .ed2, .home, .decset 25] ∧
+    (enterAltOld q.1).1.queued = [[80]] ∧
+    mainRows p.2 0 5 =
+      [List.replicate 10 120, [97,97,97,32,32,32,32,32,32,32], [98,98,98,32,32,32,32,32,32,32],
+       List.replicate 10 32, List.replicate 10 32] ∧
+    altRows p.2 5 =
+      [[97,97,97,32,32,32,32,32,32,32], List.replicate 10 32, List.replicate 10 32,
+       List.replicate 10 32, List.replicate 10 32] ∧
+    p.1.queued = [[80]] ∧ p.2.onAlt = false ∧ p.2.main.cr = 2 := by
+  decide
+
+set_option maxRecDepth 100000 in
+/-- the residual case (the side condition of `C14_alt_queue_empty`): if EnterAltScreen comes
+directly after the print, with NO view written since the last flush (`buf = []`; not a history of
+the event loop), the render before the switch is a no-op and "P" is carried into the alt screen
+exactly as before the repair -/
+example :
+    let ops : List ROp := [.write [97,97,97,10,98,98,98], .flush, .printLine [80], .enterAlt, .stop, .exitAlt]
+    let q := runOn ri ti (ops.take 3)
+    let p := runOn ri ti ops
+    viewAfterPrint ops = false ∧ q.1.buf = [] ∧
+    (enterAlt q.1).2 = [.decset 1049, .ed2, .home, .decset 25] ∧ (enterAlt q.1).1.queued = [[80]] ∧
+    mainRows p.2 0 5 =
+      [List.replicate 10 120, [97,97,97,32,32,32,32,32,32,32], [98,98,98,32,32,32,32,32,32,32],
+       List.replicate 10 32, List.replicate 10 32] ∧
+    p.1.queued = [[80]] := by
   decide
 
 end Tea.Props.C14
